@@ -294,6 +294,27 @@ def _with_seed_blocks(ctx, f: FuncInfo, seed_param: str):
     return good, bad
 
 
+def _returns_lazy_drawer(ctx, g: FuncInfo, drawers, _depth: int = 0) -> bool:
+    """``g`` hands back an iterator that has not drawn yet: it is a generator function, or it returns a
+    generator expression / map / filter over, or the result of, such a function (two levels)."""
+    own = [n for n in walk_local(g.node) if isinstance(n, (ast.Yield, ast.YieldFrom))]
+    if own and not any(d.split(".")[-1] == "contextmanager" for d in g.decorators):
+        return True
+    if _depth >= 2:
+        return False
+    for r in returns_of(g):
+        v = expand(g, r.value) if r.value is not None else None
+        if isinstance(v, ast.GeneratorExp):
+            return True
+        if isinstance(v, ast.Call):
+            if call_name(v).split(".")[-1] in ("map", "filter", "starmap", "imap", "chain"):
+                return True
+            for cal in ctx.R.resolve_call(g, v):
+                if isinstance(cal, FuncInfo) and cal.qual in drawers and _returns_lazy_drawer(ctx, cal, drawers, _depth + 1):
+                    return True
+    return False
+
+
 def r4_seeded_models(ctx):
     """Every model function with a `seed` parameter makes all calls from which an interpreter-level np.random draw is reachable inside `with set_random_seed(seed)` (argument = that parameter); nothing draws before or after the block."""
     eff = Effects(ctx.repo, ctx.R)
@@ -323,6 +344,18 @@ def r4_seeded_models(ctx):
                     q = init.qual if init else None
                 if q and q in drawers and q != SRS:
                     sites.append((cs.node, q))
+        # a call inside the block that only BUILDS a lazy producer (generator function, generator expression,
+        # map / filter object) draws when it is consumed: it must be consumed inside the block as well
+        from sa.index import parent as _par
+
+        for cs in ctx.R.call_sites(f):
+            if not isinstance(cs.node, ast.Call) or not any(contains(w, cs.node) for w in good):
+                continue
+            for cal in cs.callees:
+                if isinstance(cal, FuncInfo) and cal.qual in drawers and _returns_lazy_drawer(ctx, cal, drawers):
+                    par_ = _par(cs.node)
+                    consumed = (isinstance(par_, ast.Call) and call_name(par_).split(".")[-1] in ("list", "tuple", "sorted", "array", "asarray", "fromiter", "sum", "concatenate", "stack", "vstack", "hstack", "set", "dict", "max", "min") and cs.node in par_.args) or (isinstance(par_, (ast.For, ast.comprehension)) and par_.iter is cs.node and any(contains(w, par_) for w in good)) or (isinstance(par_, ast.Starred))
+                    ctx.check(consumed, f.qual + f"#lazy:{cal.name}", f"the iterator returned by {cal.name} is consumed inside the seeding block" if consumed else f"`{norm(cs.node)[:60]}` only builds a lazy iterator inside `with set_random_seed(seed)`: its random draws happen when it is consumed, after the block has restored the generator (the model's seed does not govern them and the caller's generator is advanced)", where=f, node=cs.node)
         # nested helper functions defined in the model and drawing
         outside = [(nd, what) for nd, what in sites if not any(contains(w, nd) for w in good)]
         if not sites:
